@@ -124,6 +124,9 @@ pub fn label_long(ctx: &mut crate::engine::Ctx, b: &crate::gen::Building) {
     if b.n >= 365 {
         ctx.label("long_series");
     }
+    if b.lines.len() >= 100 {
+        ctx.label("many_lines");
+    }
 }
 
 /// the parser completed ambient / solar production: the parsed components hold more production components than
